@@ -115,6 +115,8 @@ spec fn result_ok<E>(v: Option<TransactionResult<E>>, b: Address) -> bool {
 
 // ---- Scheduler well-formedness (what Scheduler::build establishes) ----
 impl<DB: DatabaseRef> Scheduler<DB> {
+    /// issued fact of mark_mv_estimate: the scan over `ws` has been performed for `txid`
+    pub uninterp spec fn marked_estimate(&self, txid: TxId, ws: Set<LocationAndType>) -> bool;
     spec fn wf(&self) -> bool {
         &&& self.scheduler_ctx.wf()
         &&& self.scheduler_ctx.num_txs == self.block_size
